@@ -52,3 +52,68 @@ def M3.entry {α : Type} (m : M3 α) (i j : Fin 3) : α :=
   match j with | 0 => r.x | 1 => r.y | 2 => r.z
 
 end Midgard.Geo
+
+namespace Midgard.Geo
+
+/-! ### Euclidean norm of a real 3-vector -/
+
+theorem V3.norm2_nonneg (u : V3 ℝ) : 0 ≤ u.norm2 := by
+  simp only [V3.norm2, V3.dot]; nlinarith [mul_self_nonneg u.x, mul_self_nonneg u.y, mul_self_nonneg u.z]
+
+theorem V3.norm_eq (u : V3 ℝ) : u.norm = Real.sqrt u.norm2 := by
+  simp only [V3.norm, trig_sqrt, V3.norm2, V3.dot]
+
+theorem V3.norm_sq (u : V3 ℝ) : u.norm ^ 2 = u.norm2 := by
+  rw [V3.norm_eq, Real.sq_sqrt u.norm2_nonneg]
+
+theorem V3.norm_pos {u : V3 ℝ} (h : u.norm2 ≠ 0) : 0 < u.norm := by
+  rw [V3.norm_eq]
+  exact Real.sqrt_pos.mpr (lt_of_le_of_ne u.norm2_nonneg (Ne.symm h))
+
+theorem V3.norm2_eq_zero {u : V3 ℝ} (h : u.norm2 = 0) : u = ⟨0, 0, 0⟩ := by
+  simp only [V3.norm2, V3.dot] at h
+  have hx : u.x = 0 := by nlinarith [mul_self_nonneg u.x, mul_self_nonneg u.y, mul_self_nonneg u.z]
+  have hy : u.y = 0 := by nlinarith [mul_self_nonneg u.x, mul_self_nonneg u.y, mul_self_nonneg u.z]
+  have hz : u.z = 0 := by nlinarith [mul_self_nonneg u.x, mul_self_nonneg u.y, mul_self_nonneg u.z]
+  exact V3.ext' hx hy hz
+
+/-- `unit u` has length 1 -/
+theorem V3.unit_norm2 {u : V3 ℝ} (h : u.norm2 ≠ 0) : u.unit.norm2 = 1 := by
+  have hp := V3.norm_pos h
+  have hs := V3.norm_sq u
+  simp only [V3.unit, V3.sdiv, V3.norm2, V3.dot] at hs ⊢
+  field_simp
+  linear_combination -hs
+
+/-- `unit u = u` when `u` already has length 1 -/
+theorem V3.unit_of_norm2_one {u : V3 ℝ} (h : u.norm2 = 1) : u.unit = u := by
+  have : u.norm = 1 := by rw [V3.norm_eq, h, Real.sqrt_one]
+  apply V3.ext' <;> simp [V3.unit, V3.sdiv, this]
+
+end Midgard.Geo
+
+namespace Midgard.Geo
+
+/-! ### `arctan2` of a positive multiple of a `(sin, cos)` pair -/
+
+theorem atan2_pair_eq (k θ : ℝ) :
+    (⟨k * Real.cos θ, k * Real.sin θ⟩ : ℂ) = (k : ℂ) * (Complex.cos θ + Complex.sin θ * Complex.I) := by
+  apply Complex.ext <;>
+    simp [Complex.cos_ofReal_re, Complex.sin_ofReal_re, Complex.cos_ofReal_im, Complex.sin_ofReal_im]
+
+/-- `arctan2(k sin θ, k cos θ) = θ` for `k > 0`, `θ ∈ (−π, π]` -/
+theorem atan2_pos_mul (k θ : ℝ) (hk : 0 < k) (hθ : θ ∈ Set.Ioc (-Real.pi) Real.pi) :
+    Trig.atan2 (k * Real.sin θ) (k * Real.cos θ) = θ := by
+  rw [trig_atan2, atan2_pair_eq, Complex.arg_mul_cos_add_sin_mul_I hk hθ]
+
+/-- in general it differs from `θ` by a whole number of turns and lies in `(−π, π]` -/
+theorem atan2_pos_mul_mod (k θ : ℝ) (hk : 0 < k) :
+    (∃ n : ℤ, Trig.atan2 (k * Real.sin θ) (k * Real.cos θ) = θ + 2 * Real.pi * n) ∧
+    -Real.pi < Trig.atan2 (k * Real.sin θ) (k * Real.cos θ) ∧
+    Trig.atan2 (k * Real.sin θ) (k * Real.cos θ) ≤ Real.pi := by
+  rw [trig_atan2]
+  refine ⟨?_, Complex.neg_pi_lt_arg _, Complex.arg_le_pi _⟩
+  rw [atan2_pair_eq]
+  exact ⟨_, by linarith [Complex.arg_mul_cos_add_sin_mul_I_sub hk θ]⟩
+
+end Midgard.Geo
